@@ -29,6 +29,22 @@
 //!   another spelling of its name: the answer must be null or the value of the invocable meant;
 //! * every evaluation made alone runs under a watchdog (`with_deadline`): a call that does not come back is reported as
 //!   a deadlock with that single call as the failing input.
+//!
+//! Families added in wave 8 (every kind of invocable is paired with a "disturber": the same code driven by failing /
+//! extreme / differently-shaped inputs on other threads; three rounds of every five put the ordinary calls on the even
+//! threads and the disturbing calls on the odd threads):
+//! * `service-input-decisions` — decision services WITH input decisions (one, two, one in the middle of a chain, a
+//!   service invoked as a function from a decision, a service inside a service) beside direct evaluations of the
+//!   decisions that require those decisions; every call carries tags of its own (`w`, `Sal1`, `Amt1`, `Let1`), so that a
+//!   value of another call shows in the answer; written-out expectations (`Oracle::Letter`);
+//! * `conversions` — Cnv1: number -> machine integer conversions behind time / date / date and time / substring / sublist /
+//!   list index / for range with arguments that fit (written-out expectation, `Oracle::Conversions`) beside Dst1: the same
+//!   built-ins with numbers that do not fit (`BIG`);
+//! * `ordinary-vs-disturbing-inputs` — every invocable (but the unbounded recursion) with the inputs of
+//!   `gen_extreme_input`; the answer alone is the expectation;
+//! * `number-conversions` — directly on `FeelNumber` (`number_conversions`): conversions of integers that fit (the
+//!   expectation is the integer) beside conversions of numbers that do not fit (the expectation is the answer alone);
+//! * the semantics with panics (`Dmn.ConcP`, request `runp`) on the abstract lock shape of the rounds.
 
 use crate::model::Model;
 use crate::report::{Kind, Report};
@@ -68,6 +84,10 @@ enum Oracle {
   PartialCounts(u64),
   /// the table of the family `overlapping-rules`: hit policy, thresholds t0 < t1 < t2
   Overlap(&'static str, i128, i128, i128),
+  /// family `service-input-decisions`: which of Let1..Let3 / SvcL1..SvcL4, and the length of the padding loop
+  Letter(&'static str, u64),
+  /// family `conversions`: the invocable Cnv1
+  Conversions,
 }
 
 /// Hit policies of the family `overlapping-rules`: label, attributes of the decision table.
@@ -122,8 +142,86 @@ fn dec_list(text: &str) -> Option<Vec<(i128, u32)>> {
 
 /// Judges the answer `got` (canonical text) of a call with the number `n` by the written-out expectation of the
 /// invocable; `Err(expected)` when it is not what is written.
-fn judge_written(oracle: &Oracle, n: (i128, u32), got: &str) -> Result<(), String> {
+fn judge_written(oracle: &Oracle, input_text: &str, got: &str) -> Result<(), String> {
+  let n = match n_of(input_text) {
+    Some(n) => n,
+    None => return Ok(()),
+  };
+  let q = |s: &str| format!("{:?}", s);
+  let int = |name: &str| -> Option<i128> { field_of(input_text, name).and_then(|t| dec_value(&t)).filter(|d| d.1 == 0).map(|d| d.0) };
+  let text = |name: &str| -> Option<String> { field_of(input_text, name).and_then(|t| t.strip_prefix('"').and_then(|r| r.strip_suffix('"')).map(|r| r.to_string())) };
   match oracle {
+    Oracle::Letter(which, pad) => {
+      // the values a decision service is given for its input decisions replace those decisions inside the service;
+      // everywhere else a required decision is evaluated from the input data of the call
+      let w = match text("w") {
+        Some(w) => w,
+        None => return Ok(()),
+      };
+      let amount = dec_add_int((n.0 * 2, n.1), 1);
+      let same_number = |t: Option<String>, want: (i128, u32)| t.and_then(|t| dec_value(&t)) == Some(dec_add_int(want, 0));
+      let ctx_ok = |letter: &str, amount: (i128, u32)| -> bool {
+        field_of(got, "letter") == Some(q(letter)) && same_number(field_of(got, "amount"), amount) && field_of(got, "pad") == Some(pad.to_string())
+      };
+      let (ok, want) = match *which {
+        "Let1" => (got == q(&format!("Dear {}!", w)), q(&format!("Dear {}!", w))),
+        "Let3" => (got == q(&format!("Yo {}!?", w)), q(&format!("Yo {}!?", w))),
+        "Let2" => (ctx_ok(&format!("Dear {}!", w), amount), format!("{{amount: n * 2 + 1, letter: \"Dear {}!\", pad: {}}}", w, pad)),
+        "SvcL1" => match text("Sal1") {
+          Some(sal) => (got == q(&format!("{}!", sal)), q(&format!("{}!", sal))),
+          None => return Ok(()),
+        },
+        "SvcL2" => match (text("Sal1"), field_of(input_text, "Amt1").and_then(|t| dec_value(&t))) {
+          (Some(sal), Some(amt)) => (ctx_ok(&format!("{}!", sal), amt), format!("{{amount: {}e-{}, letter: \"{}!\", pad: {}}}", amt.0, amt.1, sal, pad)),
+          _ => return Ok(()),
+        },
+        "SvcL3" => match text("Let1") {
+          Some(let1) => (ctx_ok(&let1, amount), format!("{{amount: n * 2 + 1, letter: \"{}\", pad: {}}}", let1, pad)),
+          None => return Ok(()),
+        },
+        _ => match text("Sal1") {
+          Some(sal) => {
+            let want = format!("{{Let1: {}, Let3: {}}}", q(&format!("{}!", sal)), q(&format!("Yo {}!?", w)));
+            (got == want, want)
+          }
+          None => return Ok(()),
+        },
+      };
+      return if ok { Ok(()) } else { Err(want) };
+    }
+    Oracle::Conversions => {
+      let f = (int("h"), int("mi"), int("sc"), int("y"), int("mo"), int("dd"), int("pp"), int("qq"));
+      let (h, mi, sc, y, mo, dd, pp, qq) = match f {
+        (Some(h), Some(mi), Some(sc), Some(y), Some(mo), Some(dd), Some(pp), Some(qq))
+          if (0..24).contains(&h) && (0..60).contains(&mi) && (0..60).contains(&sc) && (1000..10000).contains(&y) && (1..13).contains(&mo) && (1..29).contains(&dd) && (0..20).contains(&pp) && (0..20).contains(&qq) =>
+        {
+          (h, mi, sc, y, mo, dd, pp, qq)
+        }
+        _ => return Ok(()),
+      };
+      let abc = "abcdefghijklmnopqrstuvwxyz";
+      let (t, d) = (format!("{:02}:{:02}:{:02}", h, mi, sc), format!("{:04}-{:02}-{:02}", y, mo, dd));
+      let want = format!(
+        "[{}, {}, {}, [{}, {}], {}, {}, {}, {}, [{}], 1770, {}, [{}]]",
+        q(&t),
+        q(&d),
+        q(&abc[pp as usize..pp as usize + 3]),
+        qq,
+        qq + 1,
+        pp,
+        q(&format!("{}T{}", d, t)),
+        qq + 1,
+        h * 60 + mi,
+        (0..24).map(|i| i.to_string()).collect::<Vec<_>>().join(", "),
+        q(&abc[25 - pp as usize..]),
+        (1..13).map(|i| i.to_string()).collect::<Vec<_>>().join(", ")
+      );
+      return if got == want { Ok(()) } else { Err(want) };
+    }
+    _ => {}
+  }
+  match oracle {
+    Oracle::Letter(..) | Oracle::Conversions => Ok(()),
     Oracle::None => Ok(()),
     Oracle::Fixed(t) => {
       if got == t {
@@ -634,12 +732,92 @@ fn generate_model(rng: &mut Rng) -> (String, Vec<Invocable>) {
     ));
     inv.push(Invocable { name, kind: "overlapping", locks: dec_locks.clone(), oracle: Oracle::Overlap(hp, t0 as i128, t1 as i128, t2 as i128) });
   }
+  // ---- family `service-input-decisions` (wave 8): decision services WITH input decisions beside direct evaluations of
+  // the decisions that require those same decisions. Inside a service the supplied values replace the required
+  // decisions; outside (and in every other call) they are evaluated from the call's own input data.
+  //   Sal1 = "Dear " + w     Amt1 = n * 2 + 1     Let1 = Sal1 + "!"     Let2 = {letter: Let1, amount: Amt1, pad: ...}
+  //   Let3 = SvcL1("Yo " + w) + "?"   (the service invoked as a function from a decision)
+  //   SvcL1: output Let1, input decision Sal1            SvcL2: output Let2, encapsulated Let1, input decisions Sal1, Amt1
+  //   SvcL3: output Let2, input decision Let1 (mid-chain) SvcL4: outputs Let3, Let1; input decision Sal1 (a service inside a service)
+  for name in ["w", "h", "mi", "sc", "y", "mo", "dd", "pp", "qq", "big"] {
+    let tr = if name == "w" { "string" } else { "number" };
+    x.push_str(&format!("<inputData name=\"{n}\" id=\"_{n}\"><variable name=\"{n}\" typeRef=\"{t}\"/></inputData>\n", n = name, t = tr));
+  }
+  let pad = 20 + rng.below(60);
+  x.push_str(&decision("Sal1", "string", &[("input", "_w")], "\"Dear \" + w"));
+  x.push_str(&decision("Amt1", "number", &[("input", "_n")], "n * 2 + 1"));
+  x.push_str(&decision("Let1", "string", &[("decision", "_Sal1")], "Sal1 + \"!\""));
+  x.push_str(&decision(
+    "Let2",
+    "",
+    &[("decision", "_Let1"), ("decision", "_Amt1"), ("input", "_n")],
+    &format!("{{letter: Let1, amount: Amt1, pad: count(for i in 1..{} return i + n)}}", pad),
+  ));
+  x.push_str(&decision("Let3", "string", &[("input", "_w"), ("knowledge", "_SvcL1")], "SvcL1(\"Yo \" + w) + \"?\""));
+  x.push_str("<decisionService name=\"SvcL1\" id=\"_SvcL1\"><variable name=\"SvcL1\"/><outputDecision href=\"#_Let1\"/><inputDecision href=\"#_Sal1\"/></decisionService>\n");
+  x.push_str("<decisionService name=\"SvcL2\" id=\"_SvcL2\"><variable name=\"SvcL2\"/><outputDecision href=\"#_Let2\"/><encapsulatedDecision href=\"#_Let1\"/><inputDecision href=\"#_Sal1\"/><inputDecision href=\"#_Amt1\"/><inputData href=\"#_n\"/></decisionService>\n");
+  x.push_str("<decisionService name=\"SvcL3\" id=\"_SvcL3\"><variable name=\"SvcL3\"/><outputDecision href=\"#_Let2\"/><inputDecision href=\"#_Let1\"/><inputData href=\"#_n\"/></decisionService>\n");
+  x.push_str("<decisionService name=\"SvcL4\" id=\"_SvcL4\"><variable name=\"SvcL4\"/><outputDecision href=\"#_Let3\"/><outputDecision href=\"#_Let1\"/><inputDecision href=\"#_Sal1\"/><inputData href=\"#_w\"/></decisionService>\n");
+  let two_deep = vec![0, 2, 3, 1, 4, 5, 2, 3, 1, 4, 5];
+  for name in ["Let1", "Let2", "Let3"] {
+    inv.push(Invocable { name: name.into(), kind: "requires-input-decision", locks: two_deep.clone(), oracle: Oracle::Letter(name, pad) });
+  }
+  for name in ["SvcL1", "SvcL2", "SvcL3", "SvcL4"] {
+    let mut l = vec![0, 3, 5, 4, 1];
+    l.extend(two_deep.iter().skip(1));
+    inv.push(Invocable { name: name.into(), kind: "service-with-input-decision", locks: l, oracle: Oracle::Letter(name, pad) });
+  }
+  // ---- family `conversions` (wave 8): number -> machine integer conversions (to_u8 / i32 / u32 / u64 / usize / isize) behind
+  // the temporal constructors, substring, sublist, list indices, range ends of for; Cnv1 with arguments that fit (the
+  // expectation is written out), Dst1 ("disturber") drives the SAME code with the input `big`: out of range,
+  // negative, fractional, beyond 32 / 64 bits - conversions that fail, many per call.
+  let abc = "abcdefghijklmnopqrstuvwxyz";
+  let l26: Vec<String> = (0..26).map(|i| i.to_string()).collect();
+  let l26 = format!("[{}]", l26.join(", "));
+  x.push_str(&decision(
+    "Cnv1",
+    "",
+    &[("input", "_h"), ("input", "_mi"), ("input", "_sc"), ("input", "_y"), ("input", "_mo"), ("input", "_dd"), ("input", "_pp"), ("input", "_qq")],
+    &format!(
+      "[string(time(h, mi, sc)), string(date(y, mo, dd)), substring(\"{abc}\", pp + 1, 3), sublist({l26}, qq + 1, 2), {l26}[pp + 1], string(date and time(date(y, mo, dd), time(h, mi, sc))), count(for i in pp..(pp + qq) return i), (time(h, mi, sc).hour) * 60 + (time(h, mi, sc).minute), for i in 0..23 return time(i, mi, sc).hour, sum(for i in 0..59 return time(h, i, sc).minute), substring(\"{abc}\", -(pp + 1)), for i in 1..12 return date(y, i, dd).month]",
+      abc = abc,
+      l26 = l26
+    ),
+  ));
+  inv.push(Invocable { name: "Cnv1".into(), kind: "conversion", locks: dec_locks.clone(), oracle: Oracle::Conversions });
+  let reps = 10 + rng.below(20);
+  x.push_str(&decision(
+    "Dst1",
+    "",
+    &[("input", "_h"), ("input", "_mi"), ("input", "_sc"), ("input", "_y"), ("input", "_mo"), ("input", "_dd"), ("input", "_pp"), ("input", "_big")],
+    &format!(
+      "[string(time(big, mi, sc)), string(time(h, big, sc)), string(time(h, mi, big)), string(date(big, mo, dd)), string(date(y, big, dd)), string(date(y, mo, big)), substring(\"{abc}\", big), substring(\"{abc}\", 1, big), substring(\"{abc}\", -big), sublist({l26}, big), sublist({l26}, 1, big), {l26}[big], {l26}[-big], decimal(pp + 0.125, big), (for i in 1..{reps} return string(date(big + i, mo, dd))), (for i in 1..{reps} return string(time(big + i, mi, sc))), string(date and time(date(big, 1, 1), time(big, 0, 0))), insert before([1, 2, 3], big, 0), remove([1, 2, 3], big), count(for i in big..big return i)]",
+      abc = abc,
+      l26 = l26,
+      reps = reps
+    ),
+  ));
+  inv.push(Invocable { name: "Dst1".into(), kind: "disturber", locks: dec_locks.clone(), oracle: Oracle::None });
   let xml = format!(
     "<?xml version=\"1.0\" encoding=\"UTF-8\"?>\n<definitions namespace=\"https://verif/c20\" name=\"c20\" id=\"_c20\" xmlns=\"https://www.omg.org/spec/DMN/20191111/MODEL/\">\n{}</definitions>",
     x
   );
   (xml, inv)
 }
+
+const MODES: [&str; 11] = [
+  "same-call",
+  "half-hot",
+  "mixed",
+  "mixed",
+  "integral-vs-tie",
+  "accumulating-mixed",
+  "one-accumulating-construct",
+  "one-accumulating-construct",
+  "direct-vs-service-with-input-decision",
+  "conversions-vs-failing-conversions",
+  "ordinary-vs-disturbing-inputs",
+];
 
 /// Null messages are not compared; everything else by its FEEL text.
 fn canon(v: &Value) -> String {
@@ -663,7 +841,103 @@ fn gen_input(rng: &mut Rng) -> String {
   };
   let s = *rng.pick(&["a", "ab", "abc", "aab1", "Zebra42", "aaabbb77cc", "", "baa", "x9y8"]);
   let d = format!("{}-{:02}-{:02}", 1990 + rng.below(60), 1 + rng.below(12), 1 + rng.below(28));
-  format!("{{n: {}, s: \"{}\", d: \"{}\", p: {}, q: {}}}", n, s, d, rng.below(20), rng.below(20))
+  format!("{{n: {}, s: \"{}\", d: \"{}\", p: {}, q: {}, {}}}", n, s, d, rng.below(20), rng.below(20), more_fields(rng, None))
+}
+
+/// The input fields of the wave-8 families: a tag `w` of the call's own, arguments of the temporal constructors and of the
+/// positional built-ins that fit their machine types, and `big` (the disturbing number, unused by the ordinary invocables).
+fn more_fields(rng: &mut Rng, big: Option<&str>) -> String {
+  format!(
+    "w: \"N{}x{}\", h: {}, mi: {}, sc: {}, y: {}, mo: {}, dd: {}, pp: {}, qq: {}, big: {}",
+    rng.below(16),
+    rng.below(100000),
+    rng.below(24),
+    rng.below(60),
+    rng.below(60),
+    1000 + rng.below(9000),
+    1 + rng.below(12),
+    1 + rng.below(28),
+    rng.below(20),
+    rng.below(20),
+    big.unwrap_or("0")
+  )
+}
+
+/// Numbers that do not fit a machine integer type, or are not integers, or are at the very ends of the types.
+const BIG: [&str; 26] = [
+  "50000000000",
+  "(-50000000000)",
+  "4294967296",
+  "4294967295",
+  "2147483648",
+  "(-2147483649)",
+  "9223372036854775807",
+  "9223372036854775808",
+  "(-9223372036854775808)",
+  "(-9223372036854775809)",
+  "18446744073709551615",
+  "18446744073709551616",
+  "100000000000000000000",
+  "1000000000000000000000000000000",
+  "(-1000000000000000000000000000000)",
+  "0.5",
+  "(-1)",
+  "256",
+  "255.5",
+  "1000000000",
+  "0",
+  "0.0000000001",
+  "(-0.5)",
+  "1.5",
+  "999999999999",
+  "60",
+];
+
+/// Disturbing inputs of the same shape as `gen_input`: extreme, failing and differently-shaped values (huge and tiny
+/// numbers, numbers where a string is declared and the reverse, nulls, lists, dates that do not exist, long and
+/// non-ASCII strings, missing entries). Integers only for `n` when `int_n`.
+fn gen_extreme_input(rng: &mut Rng) -> String {
+  let n = *rng.pick(&[
+    "50000000000", "(-50000000000)", "1000000000000000000000000000000", "0.000000000000000000000000000001", "9223372036854775808", "0", "(-0.0)", "null", "\"text\"", "[1, 2]", "true",
+    "date(\"2020-01-01\")", "9999999999999999999999999999999999", "(-9999999999999999999999999999999999)", "0.5", "2147483648", "{a: 1}",
+  ]);
+  let long = "ab1".repeat(400);
+  let s = match rng.below(8) {
+    0 => "\"\"".to_string(),
+    1 => format!("\"{}\"", long),
+    2 => "\"\u{17c}\u{f3}\u{142}\u{107} \u{1f980}\"".to_string(),
+    3 => "null".to_string(),
+    4 => "5".to_string(),
+    5 => "\"a\\\"b\"".to_string(),
+    6 => "[\"a\"]".to_string(),
+    _ => "\"(((\"".to_string(),
+  };
+  let d = *rng.pick(&["\"2021-02-30\"", "\"\"", "\"not a date\"", "\"999999999-12-31\"", "\"-2020-01-01\"", "null", "20200101", "\"2020-13-01\"", "\"2020-03-29\"", "\"0000-01-01\""]);
+  let big = *rng.pick(&BIG);
+  let mut fields = vec![format!("n: {}", n), format!("s: {}", s), format!("d: {}", d), format!("p: {}", rng.pick(&BIG)), format!("q: {}", rng.pick(&["0", "(-1)", "null", "\"q\""]))];
+  // the wave-8 fields, each sometimes extreme as well
+  for f in more_fields(rng, Some(big)).split(", ") {
+    let (name, value) = f.split_once(": ").unwrap_or((f, "0"));
+    // (pp and qq are the ends of a range that Cnv1 iterates: never huge)
+    let value = if name == "pp" || name == "qq" {
+      if rng.chance(1, 3) { (*rng.pick(&["null", "\"x\"", "(-1)", "0.5", "60", "30", "0", "(-30)"])).to_string() } else { value.to_string() }
+    } else if name != "big" && rng.chance(1, 3) {
+      (*rng.pick(&[big, "null", "\"x\"", "(-1)", "0.5", "60", "24", "13", "32", "0"])).to_string()
+    } else {
+      value.to_string()
+    };
+    fields.push(format!("{}: {}", name, value));
+  }
+  // differently shaped: entries missing
+  if rng.chance(1, 4) {
+    let k = rng.below(fields.len() as u64) as usize;
+    fields.remove(k);
+  }
+  if rng.chance(1, 8) {
+    fields.truncate(1 + rng.below(3) as usize);
+  }
+  // `n` stays the first entry (n_of / field_of read the text)
+  format!("{{{}}}", fields.join(", "))
 }
 
 /// The number bound to `n` in an input text of `gen_input`.
@@ -672,8 +946,43 @@ fn n_of(input_text: &str) -> Option<(i128, u32)> {
   dec_value(&rest[..rest.find(", s:")?])
 }
 
+/// The text of the value bound to `name` in a context text written by this harness (`{a: 1, b: "x", c: [1, 2]}`,
+/// names are plain identifiers, strings have no `", "` followed by an entry name inside).
+fn field_of(text: &str, name: &str) -> Option<String> {
+  let inner = text.strip_prefix('{')?.strip_suffix('}')?;
+  let key = format!("{}: ", name);
+  let start = if inner.starts_with(&key) { key.len() } else { inner.find(&format!(", {}", key))? + 2 + key.len() };
+  let rest = &inner[start..];
+  // the value ends before the next `, <identifier>: ` at nesting depth 0, or at the end
+  let (mut depth, mut in_str) = (0i32, false);
+  let bytes = rest.as_bytes();
+  let mut i = 0;
+  while i < bytes.len() {
+    let c = bytes[i];
+    if in_str {
+      if c == b'\\' {
+        i += 1;
+      } else if c == b'"' {
+        in_str = false;
+      }
+    } else if c == b'"' {
+      in_str = true;
+    } else if c == b'[' || c == b'{' || c == b'(' {
+      depth += 1;
+    } else if c == b']' || c == b'}' || c == b')' {
+      depth -= 1;
+    } else if c == b',' && depth == 0 {
+      return Some(rest[..i].to_string());
+    }
+    i += 1;
+  }
+  Some(rest.to_string())
+}
+
 struct Call {
   invocable: usize,
+  /// what the call is in its family: "" (an ordinary call), "extreme" (the disturbing inputs of the invocable)
+  role: &'static str,
   /// the name the invocable is asked by (the name of the invocable, or another spelling of it)
   name: String,
   input_text: String,
@@ -696,7 +1005,7 @@ pub fn run(cfg: &Cfg) -> Report {
   let table = model.ask("(c20 table)");
   rep.extra.insert("shared_state_table".into(), json!(table));
   if let Some(t) = Sexp::parse(&table) {
-    for key in ["readOnly", "closed", "globals", "ffi", "sendSync"] {
+    for key in ["readOnly", "closed", "globals", "ffi", "sendSync", "server"] {
       let ok = t.as_list().map(|l| l.iter().any(|p| p.to_string() == format!("({} true)", key))).unwrap_or(false);
       if !ok {
         rep.notes.push(format!("the synchronisation table fails the check '{}': {}", key, table));
@@ -705,7 +1014,7 @@ pub fn run(cfg: &Cfg) -> Report {
     }
   }
   let thorough = cfg.tier == "thorough";
-  let rounds = if thorough { 20_000 } else { 200 };
+  let rounds = if thorough { 20_000 } else { 320 };
   let models_to_build = if thorough { 20 } else { 4 };
   let rounds_per_model = rounds / models_to_build;
   let budget = Duration::from_secs(if thorough { 5400 } else { 120 });
@@ -743,7 +1052,7 @@ pub fn run(cfg: &Cfg) -> Report {
     let int1 = invocables.iter().position(|i| i.name == "Int1");
     let tie1 = invocables.iter().position(|i| i.name == "Tie1");
     let overlapping: Vec<usize> = invocables.iter().enumerate().filter(|(_, i)| i.kind == "overlapping").map(|(k, _)| k).collect();
-    let mut todo: Vec<(usize, String, String)> = vec![];
+    let mut todo: Vec<(usize, String, String, &'static str)> = vec![];
     for ci in 0..n_calls {
       let mut invocable = rng.below(invocables.len() as u64) as usize;
       let mut input_text = gen_input(&mut rng);
@@ -771,7 +1080,7 @@ pub fn run(cfg: &Cfg) -> Report {
       if ci % 10 == 0 {
         name = rng.pick(&name_variants(&name)).clone();
       }
-      todo.push((invocable, name, input_text));
+      todo.push((invocable, name, input_text, ""));
     }
     // family `overlapping-rules`: every table with inputs in every part (matched by one rule, by several), at and next
     // to every threshold, twice each (so that a call follows a call of another part), then the names of these tables
@@ -799,15 +1108,58 @@ pub fn run(cfg: &Cfg) -> Report {
         let again: Vec<String> = ns.iter().rev().cloned().collect();
         ns.extend(again);
         for n in ns {
-          todo.push((k, invocables[k].name.clone(), format!("{{n: {}, s: \"ab\", d: \"2001-02-03\", p: 1, q: 2}}", n)));
+          todo.push((k, invocables[k].name.clone(), format!("{{n: {}, s: \"ab\", d: \"2001-02-03\", p: 1, q: 2}}", n), ""));
         }
         let variants = name_variants(&invocables[k].name);
         for _ in 0..2 {
-          todo.push((k, rng.pick(&variants).clone(), gen_input(&mut rng)));
+          todo.push((k, rng.pick(&variants).clone(), gen_input(&mut rng), ""));
         }
       }
     }
-    for (invocable, name, input_text) in todo {
+    // family `service-input-decisions`: every decision that requires an input decision of a service, directly, and every
+    // service with values for its input decisions; every call carries tags of its own (`w`, the supplied values), so
+    // that a value read from another call shows in the answer
+    let by_name = |n: &str| invocables.iter().position(|i| i.name == n);
+    for rep_i in 0..(if thorough { 12 } else { 6 }) {
+      for (k, inv) in invocables.iter().enumerate() {
+        if inv.kind != "requires-input-decision" && inv.kind != "service-with-input-decision" {
+          continue;
+        }
+        let n = rng.below(50);
+        let tag = format!("{}x{}", rng.below(16), rep_i * 1000 + rng.below(1000));
+        let supplied = match inv.name.as_str() {
+          "SvcL1" | "SvcL4" => format!("Sal1: \"Hi S{}\", ", tag),
+          "SvcL2" => format!("Sal1: \"Hi S{}\", Amt1: {}, ", tag, 1000 + rng.below(9000)),
+          "SvcL3" => format!("Let1: \"Hello L{}.\", ", tag),
+          _ => String::new(),
+        };
+        let input_text = format!("{{n: {}, s: \"ab\", d: \"2001-02-03\", p: 1, q: 2, {}{}}}", n, supplied, more_fields(&mut rng, None));
+        todo.push((k, inv.name.clone(), input_text, ""));
+      }
+    }
+    // family `conversions`: Cnv1 with arguments that fit, Dst1 with every disturbing number
+    if let (Some(cnv), Some(dst)) = (by_name("Cnv1"), by_name("Dst1")) {
+      for _ in 0..(if thorough { 40 } else { 16 }) {
+        todo.push((cnv, "Cnv1".to_string(), gen_input(&mut rng), ""));
+      }
+      let k0 = rng.below(BIG.len() as u64) as usize;
+      for i in 0..(if thorough { BIG.len() } else { 14 }) {
+        let big = BIG[(k0 + i) % BIG.len()];
+        let input_text = format!("{{n: {}, s: \"ab\", d: \"2001-02-03\", p: 1, q: 2, {}}}", rng.below(50), more_fields(&mut rng, Some(big)));
+        todo.push((dst, "Dst1".to_string(), input_text, "extreme"));
+      }
+    }
+    // disturbers in general: every invocable (except the unbounded recursion, whose depth is its input) with extreme,
+    // failing and differently-shaped inputs; their answers alone are their expectations like for every other call
+    for (k, inv) in invocables.iter().enumerate() {
+      if inv.kind == "recursive" || inv.kind == "panicking" {
+        continue;
+      }
+      for _ in 0..(if thorough { 4 } else { 2 }) {
+        todo.push((k, inv.name.clone(), gen_extreme_input(&mut rng), "extreme"));
+      }
+    }
+    for (invocable, name, input_text, role) in todo {
       let input = match dmntk_feel_evaluator::evaluate_context(&Scope::default(), &input_text) {
         Ok(c) => c,
         Err(_) => continue,
@@ -869,9 +1221,14 @@ pub fn run(cfg: &Cfg) -> Report {
       };
       // the written-out expectation of the call (families `special-names`, `overlapping-rules`)
       if name == exact {
-        if let Some(n) = n_of(&input_text) {
-          if let Err(want) = judge_written(&invocables[invocable].oracle, n, &expected) {
-            let family = if invocables[invocable].kind == "overlapping" { "overlapping-rules" } else { "special-names" };
+        if role != "extreme" {
+          if let Err(want) = judge_written(&invocables[invocable].oracle, &input_text, &expected) {
+            let family = match invocables[invocable].kind {
+              "overlapping" => "overlapping-rules",
+              "requires-input-decision" | "service-with-input-decision" => "service-input-decisions",
+              "conversion" => "conversions",
+              _ => "special-names",
+            };
             rep.disagree(
               Kind::ImplVsSpec,
               family,
@@ -915,8 +1272,9 @@ pub fn run(cfg: &Cfg) -> Report {
         }
       }
       rep.hit(&format!("call:{}:{}", invocables[invocable].kind, if expected == "null" { "null" } else if expected == "panic" { "panic" } else { "value" }));
-      calls.push(Call { invocable, name, input_text, input, expected });
+      calls.push(Call { invocable, role, name, input_text, input, expected });
     }
+    rep.extra.insert(format!("t_calls_model_{}", mi), json!(t_start.elapsed().as_secs_f64()));
     if mi == 0 {
       for c in calls.iter().take(6) {
         rep.sample(json!({"invocable": invocables[c.invocable].name, "input": c.input_text, "sequential_result": c.expected}));
@@ -934,6 +1292,24 @@ pub fn run(cfg: &Cfg) -> Report {
       }
     }
     rep.hit(&format!("accumulating-invocables-with-two-or-more-inputs:{}", acc_groups.len()));
+    // wave 8: the calls of the paired families
+    let of_kind = |kind: &str, role: &str| -> Vec<usize> { calls.iter().enumerate().filter(|(_, c)| invocables[c.invocable].kind == kind && c.role == role && c.name == invocables[c.invocable].name).map(|(i, _)| i).collect() };
+    let direct_calls = of_kind("requires-input-decision", "");
+    let service_calls = of_kind("service-with-input-decision", "");
+    let cnv_calls = of_kind("conversion", "");
+    let mut dst_calls = of_kind("disturber", "extreme");
+    dst_calls.extend(of_kind("conversion", "extreme"));
+    // every invocable that has ordinary calls and disturbing calls: (ordinary, disturbing)
+    let mut disturbed: Vec<(Vec<usize>, Vec<usize>)> = vec![];
+    for (k, _) in invocables.iter().enumerate() {
+      let ordinary: Vec<usize> = calls.iter().enumerate().filter(|(_, c)| c.invocable == k && c.role.is_empty()).map(|(i, _)| i).collect();
+      let extreme: Vec<usize> = calls.iter().enumerate().filter(|(_, c)| c.invocable == k && c.role == "extreme").map(|(i, _)| i).collect();
+      if !ordinary.is_empty() && !extreme.is_empty() {
+        disturbed.push((ordinary, extreme));
+      }
+    }
+    let all_extreme: Vec<usize> = calls.iter().enumerate().filter(|(_, c)| c.role == "extreme").map(|(i, _)| i).collect();
+    rep.hit(&format!("invocables-with-ordinary-and-disturbing-calls:{}", if disturbed.len() >= 40 { "40+" } else if disturbed.len() >= 20 { "20-39" } else { "<20" }));
     let calls = Arc::new(calls);
 
     for _round in 0..rounds_per_model {
@@ -955,15 +1331,39 @@ pub fn run(cfg: &Cfg) -> Report {
       if !acc_groups.is_empty() && rng.chance(1, 2) {
         mode = 5 + rng.below(3);
       }
+      // wave 8 (three rounds of every five): 8 = direct evaluations of decisions that require an input decision beside
+      // decision services that are given values for it; 9 = conversions that fit beside conversions that fail;
+      // 10 = one invocable with its ordinary inputs beside the same invocable (and others) with disturbing inputs
+      match _round % 5 {
+        0 if !direct_calls.is_empty() && !service_calls.is_empty() => mode = 8,
+        1 if !cnv_calls.is_empty() && !dst_calls.is_empty() => mode = 9,
+        2 if !disturbed.is_empty() => mode = 10,
+        _ => {}
+      }
+      let pair = if disturbed.is_empty() { None } else { Some(&disturbed[rng.below(disturbed.len() as u64) as usize]) };
       let hot = rng.below(calls.len() as u64) as usize;
       let group: &Vec<usize> = if acc_groups.is_empty() { &acc_calls } else { &acc_groups[(_round as usize + rng.below(2) as usize * 7) % acc_groups.len()] };
       for ti in 0..threads {
-        let k = 1 + rng.below(if thorough { 40 } else { 24 }) as usize;
+        let k = if mode >= 8 { 12 + rng.below(if thorough { 40 } else { 24 }) as usize } else { 1 + rng.below(if thorough { 40 } else { 24 }) as usize };
         let seq: Vec<usize> = (0..k)
           .map(|_| match mode {
             4 => *rng.pick(if ti % 2 == 0 { &int_calls } else { &tie_calls }),
             5 => *rng.pick(&acc_calls),
             6 | 7 => *rng.pick(group),
+            8 => *rng.pick(if ti % 2 == 0 { &direct_calls } else { &service_calls }),
+            9 => *rng.pick(if ti % 2 == 0 { &cnv_calls } else { &dst_calls }),
+            10 => match pair {
+              Some((ordinary, extreme)) => {
+                if ti % 2 == 0 {
+                  *rng.pick(ordinary)
+                } else if rng.chance(1, 2) {
+                  *rng.pick(extreme)
+                } else {
+                  *rng.pick(&all_extreme)
+                }
+              }
+              None => hot,
+            },
             0 => hot,
             1 => {
               if rng.chance(1, 2) {
@@ -1035,7 +1435,7 @@ pub fn run(cfg: &Cfg) -> Report {
           .collect::<Vec<_>>()
           .join(" | ")
       };
-      let key = format!("model {} threads {} barrier {} : {}", mi, threads, use_barrier, describe(&plan));
+      let key = format!("model {} mode {} threads {} barrier {} : {}", mi, MODES[mode as usize], threads, use_barrier, describe(&plan));
       // watchdog
       let deadline = Instant::now() + Duration::from_secs(30);
       let mut finished = 0usize;
@@ -1085,18 +1485,50 @@ pub fn run(cfg: &Cfg) -> Report {
       let distinct_acc_calls: std::collections::BTreeSet<usize> = plan.iter().flatten().copied().filter(|&c| invocables[calls[c].invocable].kind == "accumulating").collect();
       rep.case(&key, threads >= 2 && (kinds.len() >= 2 || distinct_acc_calls.len() >= 2));
       rep.hit(&format!("threads:{}", if threads <= 4 { "2-4" } else if threads <= 8 { "5-8" } else { "9-16" }));
-      rep.hit(&format!("mode:{}", ["same-call", "half-hot", "mixed", "mixed", "integral-vs-tie", "accumulating-mixed", "one-accumulating-construct", "one-accumulating-construct"][mode as usize]));
+      rep.hit(&format!("mode:{}", MODES[mode as usize]));
       for (ti, out) in &results {
         for (c, r) in out {
           total_calls += 1;
           let call = &calls[*c];
           if *r != call.expected {
-            let what = if r == "panic" { "a concurrent evaluation panics where the sequential one does not" } else { "a concurrent evaluation returns a different value than the same call alone" };
+            let what = if r == "panic" {
+              "a concurrent evaluation panics where the sequential one does not".to_string()
+            } else if matches!(invocables[call.invocable].kind, "conversion" | "disturber" | "requires-input-decision" | "service-with-input-decision") {
+              format!("a concurrent evaluation returns a different value than the same call alone ({})", invocables[call.invocable].kind)
+            } else {
+              "a concurrent evaluation returns a different value than the same call alone".to_string()
+            };
             rep.disagree(
               Kind::ImplVsSpec,
               "interleaving_independent",
-              what,
-              &format!("seed {} thread {} call {} {} ;; round: {}", cfg.seed, ti, invocables[call.invocable].name, call.input_text, key),
+              &what,
+              &format!(
+                "seed {} thread {} call {} {} ;; meanwhile in the other threads: {} ;; round: {}",
+                cfg.seed,
+                ti,
+                invocables[call.invocable].name,
+                call.input_text,
+                {
+                  let mut seen = std::collections::BTreeSet::new();
+                  let mut others = vec![];
+                  for (tj, seq) in plan.iter().enumerate() {
+                    if tj != *ti {
+                      for &c in seq {
+                        // the calls whose own tags / numbers appear in the answer first
+                        if seen.insert(c) {
+                          let o = &calls[c];
+                          let tagged = ["w", "Sal1", "Let1", "Amt1", "big"].iter().any(|f| field_of(&o.input_text, f).map(|v| v.len() > 3 && r.contains(v.trim_matches('"'))).unwrap_or(false));
+                          let other_side = (o.role == "extreme") != (call.role == "extreme") || invocables[o.invocable].kind != invocables[call.invocable].kind;
+                          others.push((!tagged, !other_side, format!("{} {}", o.name, o.input_text)));
+                        }
+                      }
+                    }
+                  }
+                  others.sort();
+                  others.into_iter().take(3).map(|(_, _, t)| t).collect::<Vec<_>>().join(" ; ")
+                },
+                key
+              ),
               r,
               &call.expected,
             );
@@ -1151,8 +1583,51 @@ pub fn run(cfg: &Cfg) -> Report {
         if !ok {
           rep.disagree(Kind::ImplVsModel, "semantics", "the interleaving semantics blocks or changes a result on a read-only round", &req, &ans, "finished, nobody blocked, results = alone");
         }
+        // the same round in the semantics with panics: a call whose evaluation alone panics is a program that panics
+        // under its guards (the releases after it never run); nothing may stay held, poisoned or blocked
+        let mut panics = 0;
+        let progs_p: Vec<String> = plan
+          .iter()
+          .take(6)
+          .map(|seq| {
+            let mut acts = vec![];
+            for &c in seq.iter().take(4) {
+              let inv = &invocables[calls[c].invocable];
+              for l in &inv.locks {
+                acts.push(format!("(r {})", l));
+              }
+              // (and every fifth call of the table, so that every run of the semantics has calls that panic under guards)
+              if calls[c].expected == "panic" || c % 5 == 0 {
+                panics += 1;
+                acts.push("(p)".to_string());
+              } else {
+                acts.push(format!("(c {})", c));
+              }
+              for l in inv.locks.iter().rev() {
+                acts.push(format!("(u {})", l));
+              }
+            }
+            format!("({})", acts.join(" "))
+          })
+          .collect();
+        let req = format!("(c20 runp ({}) ({}))", progs_p.join(" "), sched.join(" "));
+        let ans = model.ask(&req);
+        let ok = Sexp::parse(&ans)
+          .and_then(|a| {
+            let l = a.as_list()?.to_vec();
+            let get = |tag: &str| l.iter().find(|p| p.as_list().and_then(|x| x.first()).and_then(|x| x.as_atom()) == Some(tag)).map(|p| p.to_string());
+            let results = get("results")?.replacen("results", "", 1);
+            let alone = get("alone")?.replacen("alone", "", 1);
+            Some(get("finished")? == "(finished true)" && get("blocked")? == "(blocked 0)" && results == alone && get("readers")? == "(readers 0)" && get("poisoned")? == "(poisoned 0)" && get("held")? == "(held 0)" && !results.contains("lock-error"))
+          })
+          .unwrap_or(false);
+        rep.hit(if panics > 0 { "semantics-run-with-panics:some-call-panics" } else { "semantics-run-with-panics:no-call-panics" });
+        if !ok {
+          rep.disagree(Kind::ImplVsModel, "semantics", "the semantics with panics leaves a guard, a poisoned lock, a blocked thread or another result on a read-only round", &req, &ans, "finished, nobody blocked, results = alone, no reader left, nothing poisoned");
+        }
       }
     }
+    rep.extra.insert(format!("t_rounds_model_{}", mi), json!(t_start.elapsed().as_secs_f64()));
     // lock poisoning: the evaluator still answers every call as before
     for call in calls.iter() {
       let r = match guarded(|| canon(&me.evaluate_invocable(&call.name, &call.input))) {
@@ -1171,6 +1646,11 @@ pub fn run(cfg: &Cfg) -> Report {
       }
     }
   }
+  rep.extra.insert("t_before_number_conversions".into(), json!(t_start.elapsed().as_secs_f64()));
+  if !hung {
+    number_conversions(cfg, &mut rep, &mut rng);
+  }
+  rep.extra.insert("t_before_server_scope".into(), json!(t_start.elapsed().as_secs_f64()));
   if !hung {
     server_scope(cfg, &mut rep, &mut rng);
   }
@@ -1189,6 +1669,203 @@ pub fn run(cfg: &Cfg) -> Report {
     std::process::exit(0);
   }
   rep
+}
+
+// ------------------------------------------------------------------------------------------------
+// number-conversions: FeelNumber -> machine integer, directly, conversions that fit beside conversions that fail
+// ------------------------------------------------------------------------------------------------
+
+/// The conversions of a `FeelNumber` into a machine integer (feel-number/src/number.rs): the answer as text.
+const CONVERSIONS: [&str; 10] = ["to_u8", "to_u64", "to_usize", "to_isize", "i32::from", "u8::from", "u8::from(&)", "u32::try_from", "u64::try_from(&)", "isize::try_from"];
+
+fn convert(which: usize, n: &dmntk_feel_number::FeelNumber) -> String {
+  use dmntk_feel_number::FeelNumber;
+  match which {
+    0 => format!("{:?}", n.to_u8().map(|v| v as i128)),
+    1 => format!("{:?}", n.to_u64().map(|v| v as i128)),
+    2 => format!("{:?}", n.to_usize().map(|v| v as i128)),
+    3 => format!("{:?}", n.to_isize().map(|v| v as i128)),
+    4 => format!("{}", i32::from(*n)),
+    5 => format!("{}", <u8 as From<FeelNumber>>::from(*n)),
+    6 => format!("{}", <u8 as From<&FeelNumber>>::from(n)),
+    7 => format!("{:?}", u32::try_from(*n).ok().map(|v| v as i128)),
+    8 => format!("{:?}", u64::try_from(n).ok().map(|v| v as i128)),
+    _ => format!("{:?}", isize::try_from(*n).ok().map(|v| v as i128)),
+  }
+}
+
+/// The mathematical answer for an integer `v` that fits the target type: the integer itself.
+fn convert_spec(which: usize, v: i128) -> Option<String> {
+  let (lo, hi): (i128, i128) = match which {
+    0 | 5 | 6 => (0, 255),
+    1 | 2 | 8 => (0, u64::MAX as i128),
+    3 | 9 => (i64::MIN as i128, i64::MAX as i128),
+    4 => (i32::MIN as i128, i32::MAX as i128),
+    _ => (0, u32::MAX as i128),
+  };
+  if v < lo || v > hi {
+    return None;
+  }
+  Some(match which {
+    4 | 5 | 6 => format!("{}", v),
+    _ => format!("Some({})", v),
+  })
+}
+
+/// Family `number-conversions`: half of the threads convert integers that fit the target type (every conversion of
+/// feel-number, the integer written plainly, with a zero fraction and with an exponent; the expectation is the integer
+/// itself), the other half converts numbers that do not fit (beyond 8 / 32 / 64 bits, negative, with a fraction, tiny,
+/// huge; the expectation is the answer of the same conversion made alone before the threads start).
+fn number_conversions(cfg: &Cfg, rep: &mut Report, rng: &mut Rng) {
+  use dmntk_feel_number::FeelNumber;
+  let thorough = cfg.tier == "thorough";
+  // (conversion, text of the number, expectation)
+  let mut fitting: Vec<(usize, String, String)> = vec![];
+  let ints: Vec<i128> = {
+    let mut v: Vec<i128> = (0..=60).collect();
+    v.extend([100, 127, 128, 200, 254, 255, 256, 1000, 2020, 9999, 65535, 65536, 2147483647, 2147483648, 4294967295, 4294967296, 9007199254740993, i64::MAX as i128, u64::MAX as i128]);
+    v.extend([-1, -59, -128, -2020, -2147483648, -9007199254740993, i64::MIN as i128]);
+    v
+  };
+  for which in 0..CONVERSIONS.len() {
+    for &v in &ints {
+      if let Some(want) = convert_spec(which, v) {
+        let spellings = [format!("{}", v), format!("{}.0", v), format!("{}.000", v)];
+        let k = if v.abs() < 300 { rng.below(3) as usize } else { 0 };
+        fitting.push((which, spellings[k].clone(), want));
+      }
+    }
+  }
+  let failing_texts = [
+    "50000000000", "-50000000000", "4294967296", "2147483648", "-2147483649", "256", "-1", "1.5", "0.5", "255.5", "9223372036854775808", "-9223372036854775809", "18446744073709551616", "1E+30", "-1E+30", "1E-10",
+    "9999999999999999999999999999999999", "1E+6000", "100000000000000000000", "4294967295.5",
+  ];
+  let parse = |t: &str| t.parse::<FeelNumber>().ok();
+  // expectations of the failing conversions: made alone (twice)
+  let mut failing: Vec<(usize, String, String)> = vec![];
+  for which in 0..CONVERSIONS.len() {
+    for t in failing_texts {
+      if let Some(n) = parse(t) {
+        let a = guarded(|| convert(which, &n)).unwrap_or_else(|_| "panic".into());
+        let b = guarded(|| convert(which, &n)).unwrap_or_else(|_| "panic".into());
+        if a == b {
+          failing.push((which, t.to_string(), a));
+        } else {
+          rep.disagree(Kind::ImplVsSpec, "number-conversions", "number-conversions: the same conversion made alone twice gives two answers", &format!("{}({})", CONVERSIONS[which], t), &b, &a);
+        }
+      }
+    }
+  }
+  // the fitting conversions alone: the integer itself
+  for (which, t, want) in &fitting {
+    rep.case(&format!("number-conversions|alone|{}|{}", CONVERSIONS[*which], t), true);
+    let got = match parse(t) {
+      Some(n) => guarded(|| convert(*which, &n)).unwrap_or_else(|_| "panic".into()),
+      None => "not a number".to_string(),
+    };
+    if &got != want {
+      rep.disagree(
+        Kind::ImplVsSpec,
+        "number-conversions",
+        &format!("number-conversions: {} of an integer that fits is not that integer (alone)", CONVERSIONS[*which]),
+        &format!("FeelNumber {} . {}", t, CONVERSIONS[*which]),
+        &got,
+        want,
+      );
+    } else {
+      rep.hit("number-conversions:alone:the-integer");
+    }
+  }
+  let fitting = Arc::new(fitting);
+  let failing = Arc::new(failing);
+  let rounds = if thorough { 300 } else { 24 };
+  let per_thread = if thorough { 60_000 } else { 40_000 };
+  let mut reported = 0;
+  for round in 0..rounds {
+    let threads = 2 + rng.below(15) as usize;
+    let barrier = Arc::new(Barrier::new(threads));
+    // rounds of one victim conversion beside one failing conversion, and rounds of everything beside everything
+    let narrow = round % 2 == 0;
+    let victim_which = rng.below(CONVERSIONS.len() as u64) as usize;
+    let disturber_which = rng.below(CONVERSIONS.len() as u64) as usize;
+    let mut handles = vec![];
+    for ti in 0..threads {
+      let (fitting, failing, barrier) = (Arc::clone(&fitting), Arc::clone(&failing), Arc::clone(&barrier));
+      let mut trng = rng.fork();
+      handles.push(std::thread::spawn(move || {
+        let table = if ti % 2 == 0 { &fitting } else { &failing };
+        let which = if ti % 2 == 0 { victim_which } else { disturber_which };
+        let mine: Vec<&(usize, String, String)> = table.iter().filter(|c| !narrow || c.0 == which).collect();
+        let numbers: Vec<Option<FeelNumber>> = mine.iter().map(|c| c.1.parse::<FeelNumber>().ok()).collect();
+        barrier.wait();
+        let mut wrong: Option<(usize, String, String, String, u64)> = None;
+        let mut count = 0u64;
+        if mine.is_empty() {
+          return (ti, wrong, 0u64);
+        }
+        let mut k = trng.below(mine.len() as u64) as usize;
+        for i in 0..per_thread {
+          k = (k + 1) % mine.len();
+          if let Some(n) = &numbers[k] {
+            let got = guarded(|| convert(mine[k].0, n)).unwrap_or_else(|_| "panic".into());
+            if got != mine[k].2 {
+              count += 1;
+              if wrong.is_none() {
+                wrong = Some((mine[k].0, mine[k].1.clone(), got, mine[k].2.clone(), i));
+              }
+            }
+          }
+        }
+        (ti, wrong, count)
+      }));
+    }
+    let mut all = vec![];
+    for h in handles {
+      if let Ok(r) = h.join() {
+        all.push(r);
+      }
+    }
+    rep.case(&format!("number-conversions|round {}|threads {}|narrow {} {} {}", round, threads, narrow, victim_which, disturber_which), threads >= 2);
+    rep.hit(if narrow { "number-conversions:one-conversion-beside-one-failing-conversion" } else { "number-conversions:all-beside-all" });
+    for (ti, wrong, count) in all {
+      if let Some((which, t, got, want, i)) = wrong {
+        if reported < 4 {
+          reported += 1;
+          let others = if narrow {
+            format!("{} of numbers that do not fit ({})", CONVERSIONS[disturber_which], failing.iter().filter(|c| c.0 == disturber_which).take(4).map(|c| c.1.clone()).collect::<Vec<_>>().join(", "))
+          } else {
+            "every conversion of numbers that do not fit (50000000000, -1, 256, 1.5, 1E+30, ...)".to_string()
+          };
+          rep.disagree(
+            Kind::ImplVsSpec,
+            "number-conversions",
+            &format!(
+              "number-conversions: {} {} returns another answer beside conversions in other threads than alone",
+              CONVERSIONS[which],
+              if ti % 2 == 0 { "of an integer that fits" } else { "of a number that does not fit" }
+            ),
+            &format!(
+              "seed {} round {}: {} threads behind a barrier, thread {} conversion #{}: FeelNumber {} . {} ;; meanwhile the {} threads convert: {} ;; {} of {} answers of this thread differ",
+              cfg.seed,
+              round,
+              threads,
+              ti,
+              i,
+              t,
+              CONVERSIONS[which],
+              if ti % 2 == 0 { "odd" } else { "even" },
+              if ti % 2 == 0 { others } else { format!("{} of integers that fit", if narrow { CONVERSIONS[victim_which] } else { "every conversion" }) },
+              count,
+              per_thread
+            ),
+            &got,
+            &want,
+          );
+        }
+      }
+    }
+  }
+  rep.extra.insert("number_conversion_rounds".into(), json!(rounds));
 }
 
 // ------------------------------------------------------------------------------------------------
